@@ -23,8 +23,8 @@ FLOORS = {"reads-compared": 1000, "strings-compared": 100}
 
 def shards(tier, seed):
     if tier == "quick":
-        return [{"n": 2500, "maxops": 12, "part": p} for p in range(16)] + [{"sweep": (lo, lo + 275), "part": 100 + lo} for lo in range(0, 2200, 275)]
-    return [{"n": 15625, "maxops": 40, "part": p} for p in range(64)] + [{"sweep": (lo, lo + 1100), "part": 100 + lo} for lo in range(0, 13200, 1100)] + [{"sweep": (c - 3, c + 4), "part": 100 + c} for c in (16384, 32768, 65536)]
+        return [{"n": 2500, "maxops": 12, "part": p} for p in range(16)] + [{"sweep": (lo, lo + 275), "part": 100 + lo} for lo in range(0, 2200, 275)] + [{"threads": 3, "part": 999}]
+    return [{"n": 15625, "maxops": 40, "part": p} for p in range(64)] + [{"sweep": (lo, lo + 1100), "part": 100 + lo} for lo in range(0, 13200, 1100)] + [{"sweep": (c - 3, c + 4), "part": 100 + c} for c in (16384, 32768, 65536)] + [{"threads": 10, "part": 999}]
 
 
 def gen_history(rng, maxops):
@@ -71,6 +71,40 @@ def expected_text(s, sanitize):
 def run(shard, rec, tier, seed):
     ns = stage.shim()
     rng = random.Random("C04-%d-%d" % (seed, shard["part"]))
+    if "threads" in shard:
+        # every thread has its own writer and reader; what they write and read back must not depend on the others
+        from vf.mon import threads as thr
+
+        class _Rec:
+            def __init__(self):
+                self.found = []
+
+            def violation(self, mech, msg, case):
+                self.found.append((mech, msg + " (while other threads used their own writers and readers)", case))
+
+            def count(self, *a, **k):
+                pass
+
+        n = [0]
+
+        def work(tid, rnd):
+            r = random.Random("C04-thr-%d-%d-%d" % (seed, rnd, tid))
+            local = _Rec()
+            for _ in range(150):
+                hist = [("add_fixed_encoded_string", "x" * (300 + tid), 300 + tid, False), ("add_fixed_string", "\xffz" * (200 + tid), 400 + 2 * tid, False)] + gen_history(r, 10)
+                run_history(ns, local, hist)
+                n[0] += 1
+                if local.found:
+                    break
+            return local.found
+        found, errors = thr.hammer(work, 4, shard["threads"])
+        for e in errors:
+            rec.violation("read-raises", "a worker thread died: " + e, {"threads": 4})
+        for mech, msg, case in found[:3]:
+            rec.violation(mech, msg, case)
+        rec.count("histories-from-concurrent-threads", n[0])
+        rec.case(("threads", shard["threads"]), n=n[0])
+        return
     if "sweep" in shard:
         # string-length sweep: every length lo..hi through each string writer / reader pair (exact and padded
         # by 0 / 1 / 7), between two integers, in both modes - block sizes and thresholds meet every length
